@@ -1090,6 +1090,8 @@ class UnrollLiteral(ast.NodeTransformer):
         out = []
         for s in stmts:
             def _chain(e):
+                if isinstance(e, ast.Lambda):
+                    return True         # a function display: substituted at its (single) use in the body below
                 while isinstance(e, ast.Attribute):
                     e = e.value
                 return isinstance(e, (ast.Name, ast.Constant))
@@ -1438,7 +1440,8 @@ def _private_generators_to_lists(tree):
             parents[id(c)] = n
     gens = {}
     for n in ast.walk(tree):
-        if isinstance(n, ast.FunctionDef) and n.name.startswith('_') and not n.name.startswith('__') and not n.decorator_list:
+        if isinstance(n, ast.FunctionDef) and n.name.startswith('_') and not (n.name.startswith('__') and n.name.endswith('__')) \
+                and (not n.decorator_list or all(isinstance(d, ast.Name) and d.id == 'staticmethod' for d in n.decorator_list)):
             own = [x for x in _walk_fn_own(n)]
             if any(isinstance(x, (ast.Yield, ast.YieldFrom)) for x in own):
                 gens.setdefault(n.name, []).append(n)
@@ -1498,6 +1501,8 @@ def _private_generators_to_lists(tree):
                 continue
             if isinstance(user, ast.Starred):
                 continue
+            if isinstance(user, ast.Assign) and user.value is call and len(user.targets) == 1 and isinstance(user.targets[0], (ast.Tuple, ast.List)):
+                continue            # a, b = gen(): the unpacking runs the generator to its end before anything is bound
             if isinstance(user, ast.Call) and call in user.args and isinstance(user.func, ast.Name) and user.func.id in LAZY_CONSUMERS and user.func.id not in ('next', 'iter'):
                 kind = 'lazy'
                 continue
